@@ -290,9 +290,15 @@ func c17Workload[T any](rep *Report, codec Codec[T], api string) {
 	empty, blank, msg := "", " \t", "boom: \"x\""
 	// the workload: A calls B, one call per (arity, return shape, outcome); sequential so frames pair up in order
 	var calls []wireCall
+	hung := ""
 	do := func(c wireCall, f func()) {
+		if hung != "" {
+			return
+		}
 		calls = append(calls, c)
-		f()
+		if r := withWatchdog(func() (any, error) { f(); return nil, nil }); !r.ok {
+			hung = c.Name
+		}
 	}
 	do(wireCall{Name: "Nop", NArgs: 0, Shape: "oneErr"}, func() { ra.Nop(ctx) })
 	do(wireCall{Name: "NoRet", NArgs: 1, Shape: "none0"}, func() { ra.NoRet(ctx, 7) })
@@ -308,6 +314,11 @@ func c17Workload[T any](rep *Report, codec Codec[T], api string) {
 	do(wireCall{Name: "WithClosure", NArgs: 3, Shape: "two", Closure: true}, func() {
 		ra.WithClosure(ctx, 0, false, func(ctx context.Context, i int, s string) (string, error) { return s, nil })
 	})
+	if hung != "" {
+		rep.addViolation("property", "C17:"+api+":unanswered", fmt.Sprintf("the call of %s (a well-formed request) was never answered: the caller still waits after %v", hung, watchdog), desc)
+		p.Shutdown()
+		return
+	}
 	time.Sleep(5 * time.Millisecond)
 	var reqFrames, resFrames [][]byte
 	if api == "message" {
@@ -581,6 +592,7 @@ func c17Foreign(rep *Report) {
 		{"null args for none", `{"call":"c5","function":"Nop","args":null}`, "null"},
 		{"nested path", `{"call":"c6","function":"Sub.Ping","args":[7]}`, `"F/sub/7"`},
 		{"whitespace and unicode id", "{ \"call\" : \"ü-7\" ,\n \"function\":\"WhoAmI\", \"args\": [] }", ""},
+		{"method without results", `{"call":"c8","function":"NoRet","args":[1]}`, "null"},
 	}
 	for _, f := range frames {
 		rep.Evaluations++
